@@ -79,7 +79,7 @@ def run_tlc(
     violation."""
     meta = _workdir(module)
     # SerialGC without -Xms: page faults are expensive in this sandbox (measured 4.7 s vs 11-23 s)
-    cmd = ["java", "-XX:+UseSerialGC", "-Xmx8g"]
+    cmd = ["java", "-XX:+UseSerialGC", "-Xmx8g", "-Xss256m"]   # deep recursive folds over long traces
     cmd += list(java_opts)
     cmd += ["-cp", JAR, "tlc2.TLC", "-metadir", meta, "-noGenerateSpecTE"]
     cmd += ["-workers", str(workers)]
